@@ -521,7 +521,7 @@ func (broker *baseBroker) readBody(ctx context.Context) (
 				body = &bytes.Buffer{}
 
 				if bodyLength > 0 && !isEOF {
-					body = io.NewSectionReader(readerAt{broker.Reader}, 0, int64(bodyLength))
+					body = &fixedLengthBodyReader{r: broker.Reader, left: bodyLength}
 				}
 			}
 		case StreamBodyType:
@@ -576,12 +576,29 @@ func (broker *baseBroker) readLengthed(context.Context) ([]byte, error) {
 	return b, err
 }
 
-type readerAt struct {
-	io.Reader
+// fixedLengthBodyReader reads the announced length of body from reader. If
+// reader ends before the announced length, Read returns io.ErrUnexpectedEOF
+// instead of io.EOF.
+type fixedLengthBodyReader struct {
+	r    io.Reader
+	left uint64
 }
 
-func (r readerAt) ReadAt(p []byte, _ int64) (int, error) {
-	n, err := r.Read(p)
+func (f *fixedLengthBodyReader) Read(p []byte) (int, error) {
+	if f.left < 1 {
+		return 0, io.EOF
+	}
+
+	if uint64(len(p)) > f.left {
+		p = p[:f.left] //revive:disable-line:modifies-parameter
+	}
+
+	n, err := f.r.Read(p)
+	f.left -= uint64(n)
+
+	if f.left > 0 && errors.Is(err, io.EOF) {
+		err = io.ErrUnexpectedEOF
+	}
 
 	return n, err //nolint:wrapcheck //...
 }
